@@ -147,7 +147,17 @@ def run(cfg, V):
         cu, cc = q.GetComposingUnits(), q.GetComposingCategories()
         again = ObtainQuantity(list(cu), list(cc)) if not isinstance(cu, str) else ObtainQuantity(cu, cc)
         arr = Array.CreateWithQuantity(q, [s.GetValue(), s.GetValue()])
-        return {"unit": q.GetUnit(), "cat": q.GetCategory(), "qt": q.GetQuantityType(), "name": q.GetUnitName(), "joined": tuple(q.GetComposingUnitsJoiningExponents()),
+        import pickle
+
+        strings = lambda qq: (qq.GetUnit(), qq.GetCategory(), qq.GetQuantityType(), qq.GetUnitName())  # noqa: E731
+        more = {"pickled": [strings(pickle.loads(pickle.dumps(q))), strings(pickle.loads(pickle.dumps(Scalar.CreateWithQuantity(q, 1.5))).GetQuantity())],
+                "qpow": [(strings(q ** n), strings((s ** n).GetQuantity())) for n in (1, 2, 3)],
+                "qmul": (strings(q * q), strings((s * s).GetQuantity()), strings(q / rq) if False else strings((q * q) / q), strings(((s * s) / s).GetQuantity()))}
+        ea, eb, sk = Array.CreateWithQuantity(q, []), Array((), "K"), Scalar(1.0, "K")
+        more["empty_ops"] = [(strings((ea * eb).GetQuantity()), strings((s * sk).GetQuantity())), (strings((ea / eb).GetQuantity()), strings((s / sk).GetQuantity())),
+                             (strings((eb / ea).GetQuantity()), strings((sk / s).GetQuantity())), (strings((1.0 / ea).GetQuantity()), strings((1.0 / s).GetQuantity())),
+                             (strings((ea * ea).GetQuantity()), strings((s * s).GetQuantity())), (str(ea * eb), " [%s]" % (s * sk).GetUnit())]
+        return {"more": more, "unit": q.GetUnit(), "cat": q.GetCategory(), "qt": q.GetQuantityType(), "name": q.GetUnitName(), "joined": tuple(q.GetComposingUnitsJoiningExponents()),
                 "order": [(leaves[i][0], leaves[i][1], leaves[i][2], e[i]) for i in present], "rev": (rq.GetUnit(), rq.GetCategory(), rq.GetUnitName()),
                 "again": (again.GetUnit(), again.GetCategory(), again.GetQuantityType(), again == q), "repr": repr(s),
                 "obj_names": (s.GetUnitName(), arr.GetUnitName()), "empty": [(e.GetUnit(), e.GetCategory(), e.GetQuantityType(), e.GetUnitName()) for e in (empty, empty2)],
@@ -169,7 +179,14 @@ def run(cfg, V):
     if acc is None:
         return {"skip": True}
     q = acc.GetQuantity()
-    return {"unit": q.GetUnit(), "cat": q.GetCategory(), "qt": q.GetQuantityType(), "name": q.GetUnitName(), "joined": tuple(q.GetComposingUnitsJoiningExponents()),
+    import pickle
+
+    strings = lambda qq: (qq.GetUnit(), qq.GetCategory(), qq.GetQuantityType(), qq.GetUnitName(), [(cat, ue[0], ue[1]) for cat, ue in qq.GetCategoryToUnitAndExps().items()])  # noqa: E731
+    from barril.units import FixedArray
+
+    return {"pickled": [strings(pickle.loads(pickle.dumps(q))), strings(pickle.loads(pickle.dumps(acc)).GetQuantity()),
+                        strings(pickle.loads(pickle.dumps(FixedArray.CreateWithQuantity(q, [1.0, 2.0]))).GetQuantity())], "own": strings(q),
+            "unit": q.GetUnit(), "cat": q.GetCategory(), "qt": q.GetQuantityType(), "name": q.GetUnitName(), "joined": tuple(q.GetComposingUnitsJoiningExponents()),
             "map": [(cat, ue[0], ue[1]) for cat, ue in q.GetCategoryToUnitAndExps().items()], "repr": repr(acc)}
 
 
@@ -199,6 +216,12 @@ def props(cfg, T, obs):
                                                                                                               ref_makestr([(c, e) for _u, c, _n, e in rod]),
                                                                                                               ref_makestr([(n, e) for _u, _c, n, e in rod]))))
         P.append(("re-obtaining the quantity from its composing units and categories gives the same strings", obs["again"] == (obs["unit"], obs["cat"], obs["qt"], True)))
+        m_ = obs["more"]
+        own = (obs["unit"], obs["cat"], obs["qt"], obs["name"])
+        P.append(("a pickle round trip of the quantity (alone or inside a Scalar) renders the same strings", m_["pickled"] == [own, own]))
+        P.append(("Quantity ** n, Quantity * Quantity and Quantity / Quantity render like the quantities of the same Scalar operations",
+                  all(a == b for a, b in m_["qpow"]) and m_["qpow"][0][0] == own and m_["qmul"][0] == m_["qmul"][1] and m_["qmul"][2] == m_["qmul"][3]))
+        P.append(("products, quotients and reciprocals of EMPTY Arrays render the strings of the same Scalar operations", all(a == b for a, b in m_["empty_ops"])))
         P.append(("GetUnitName() of the value objects is the quantity's unit name", obs["obj_names"] == (obs["name"], obs["name"])))
         P.append(("a copy made with an EMPTY specification is the quantity without factors (all strings empty)", obs["empty"] == [("", "", "", "")] * 2))
         P.append(("auxiliary, concrete (not solver-decided): str() of a Scalar holding inf / -inf / nan still shows the unit", all(t.endswith("[%s]" % obs["unit"]) for t in obs["nonfinite"])))
@@ -225,6 +248,7 @@ def props(cfg, T, obs):
             n = db.GetUnitName(db.GetCategoryQuantityType(c), u)
             names[n] = names.get(n, 0) + e
         P.append(("unit name string sums exponents per unit name", obs["name"] == ref_makestr(list(names.items()))))
+        P.append(("a pickle round trip (quantity, Scalar, FixedArray) renders the same strings and keeps the per-category factors", obs["pickled"] == [obs["own"]] * 3))
     return P
 
 
